@@ -30,6 +30,10 @@ _plan_cache = {}
 # ---------------------------------------------------------------------------------------------------------
 
 
+BATCH = 5
+MID_COUNTS = (1 << 24, 1 << 26)
+
+
 def _field_values(fld, cur: int, offsets: list[int], c12: bool):
     w = fld.width
     mx = (1 << (8 * w)) - 1
@@ -45,6 +49,9 @@ def _field_values(fld, cur: int, offsets: list[int], c12: bool):
         base += [fld.off, fld.off // 512, fld.off >> 20] + offsets[:6] + [o // 512 for o in offsets[:3]]
     elif fld.kind in ("count", "size"):
         base += [(cur * 2) & mx, 1 << 31 if w >= 4 else 1 << 7, (1 << 32) - 1 if w >= 4 else mx, cur // 2]
+        if w >= 4 and not c12:
+            # large enough to matter if something is sized by it, small enough that the allocation succeeds quietly
+            base += list(MID_COUNTS)
     elif fld.kind == "version":
         base += list(range(0, 8)) + [cur + 2, 0x100, 0x10000, 0x401, 0x3FF] if c12 else [cur + 2]
     elif fld.kind == "flags":
@@ -145,6 +152,10 @@ def explicit_gates(spec: dict) -> list:
                 g.append(["qcow2_comptype", 1, "zstd compression without the zstandard module"])
                 for v in (2, 3, 7, 255):
                     g.append(["qcow2_comptype", v, "unknown compression type"])
+                for v in (2, 255):
+                    # the same unknown type with the incompatible bit left clear (a combination QEMU refuses as well):
+                    # the stored type is what the clusters were written with, whatever the feature word says
+                    g.append(["qcow2_comptype_nobit", v, "unknown compression type, feature bit clear"])
             g.append(["qcow2_extl2_small", 0, "extended L2 with sub-clusters below 512 bytes"])
         g.append(["qcow2_backing_no_arg", 0, "stored backing name but no backing_file argument"])
     if t == "chain" and spec["ccase"]["kind"] == "hdd":
@@ -163,7 +174,7 @@ def explicit_gates(spec: dict) -> list:
         g.append(["hyperv_active_version", 0x300, "unsupported version in the active header"])
         g.append(["hyperv_active_version", 0x500, "unsupported version in the active header"])
         g.append(["hyperv_active_sig", 0, "active header signature"])
-    if t == "other" and spec["name"] == "envelope":
+    if t == "other" and spec["name"].startswith("envelope"):
         for nm in ("vmware.keyInfo", "vmware.cipherName", "vmware.keyHash"):
             g.append(["envelope_drop_attr", nm, "missing required attribute"])
         g.append(["envelope_cipher", "AES-128-GCM", "unsupported cipher"])
@@ -221,10 +232,14 @@ def _indices(prop, tier, verif_seed):
         sp = specs[si]
         if sp["type"] != "fixture" and not (sp["type"] == "chain" and sp["ccase"]["kind"] == "vhdx"):
             return False
-        return f[0] == "field" and any(t in f[2] for t in ("count", "entries", "size", "length")) and isinstance(f[7], int) and f[7] >= (1 << 16)
+        return f[0] == "field" and any(t in f[2].lower() for t in ("count", "entries", "size", "length")) and isinstance(f[7], int) and f[7] >= (1 << 16)
 
     return [i for i, (si, f) in enumerate(plan)
-            if (f[0] in ("crafted", "gate", "none") or (i + verif_seed) % stride == 0) and not costly(si, f)]
+            if (f[0] in ("crafted", "gate", "none") or (_mid(f) and f[7] == MID_COUNTS[-1]) or (i + verif_seed) % stride == 0) and not costly(si, f)]
+
+
+def _mid(f) -> bool:
+    return f[0] == "field" and f[6] == "set" and f[7] in MID_COUNTS and f[8] == "pre"
 
 
 def plan_size(prop, tier, verif_seed):
@@ -240,7 +255,7 @@ def gen_case(seed: int, prop: str, tier: str, index: int = 0, verif_seed: int = 
     idx = _indices(prop, tier, verif_seed)
     si, fault = plan[idx[index % len(idx)]]
     return {"engine": "faultsim", "prop": prop, "seed": seed, "spec": specs[si], "fault": fault, "index": index,
-            "trace_alloc": index % 4 == 0}
+            "trace_alloc": index % 4 == 0 or _mid(fault)}
 
 
 def crafted(spec: dict) -> list:
@@ -573,6 +588,13 @@ def _f_qcow2_comptype(world, b, spec, v):
     _set_bytes(f, 72, (cur | 8).to_bytes(8, "big"))  # the compression-type incompatible bit goes with a non-zero type
 
 
+def _f_qcow2_comptype_nobit(world, b, spec, v):
+    f = world.fs.files[b.paths[0]]
+    _set_bytes(f, 104, bytes([v]))
+    cur = int.from_bytes(f.pread(72, 8), "big")
+    _set_bytes(f, 72, (cur & ~8).to_bytes(8, "big"))
+
+
 def _f_qcow2_extl2_small(world, b, spec, _):
     f = world.fs.files[b.paths[0]]
     cur = int.from_bytes(f.pread(72, 8), "big")
@@ -804,6 +826,7 @@ def run_case(case: dict) -> RunResult:
     steps = 0
     peak = 0
     outcome = "?"
+    memerr = None
 
     def v(klass, detail):
         return Violation(prop, klass, log.seq, detail, dict(sig, klass=klass))
@@ -855,6 +878,8 @@ def run_case(case: dict) -> RunResult:
                         raise
                     except Exception as e:
                         outcome = ("refused:" if not opened else "raised:") + type(e).__name__
+                        if isinstance(e, MemoryError):
+                            memerr = "storage" if str(e).startswith("simulated storage") else "library"
                 steps = m.steps
             except BudgetExceeded as e:
                 steps = m.steps
@@ -875,6 +900,10 @@ def run_case(case: dict) -> RunResult:
                 viol = v("alloc", f"peak traced allocation {peak} bytes > allowed {allowed_alloc} after fault {fault[:8]}")
             unit = max(b.unit_bytes, 1)
             big = [n for n in inflates if n > unit]
+            if viol is None and memerr == "library":
+                # the address space of a worker is capped (orchestrator: RLIMIT_AS); a MemoryError that does not come from the
+                # simulated storage means the reader asked the allocator for gigabytes on behalf of a small input
+                viol = v("alloc-attempt", f"the reader attempted an allocation the capped address space refused (MemoryError) after fault {fault[:8]}")
             if viol is None and big:
                 viol = v("inflate", f"inflate produced {max(big)} bytes for an allocation unit of {unit} bytes after fault {fault[:8]}")
         if viol is None and c12 and not skip:
@@ -892,6 +921,8 @@ def run_case(case: dict) -> RunResult:
     res.extra["inflate_calls"] = len(inflates)
     if skip:
         res.probes["gate.skipped_not_applicable"] = 1
+    if memerr:
+        res.probes["memoryerror.from_" + memerr] = 1
     return res
 
 
